@@ -493,16 +493,19 @@ _MUTATORS = {"append", "extend", "insert", "add", "update", "setdefault", "pop",
              "discard", "appendleft", "__setitem__", "__delitem__", "move_to_end", "sort", "reverse"}
 
 
-def _state_writes(tree):
+def _state_writes(tree, entry_name="__format__"):
     """every construct in the functions reachable from `datetime.__format__` through which one call could leave
     something behind for the next: global/nonlocal, stores into attributes or items of anything, mutating method calls
     on names that are not locals created in the same function, mutable default arguments, decorators other than the
     memoiser of `_compile_format`.  (Locals built and filled inside one call - `formatters.append` - are not state.)"""
     funcs = {n.name: n for n in tree.body if isinstance(n, (ast.FunctionDef, ast.AsyncFunctionDef))}
-    cls = find_class(tree, "datetime")
-    entry = [n for n in cls.body if isinstance(n, ast.FunctionDef) and n.name == "__format__"]
-    if len(entry) != 1:
-        raise Unsupported("datetime.__format__ not found")
+    if entry_name == "__format__":
+        cls = find_class(tree, "datetime")
+        entry = [n for n in cls.body if isinstance(n, ast.FunctionDef) and n.name == "__format__"]
+        if len(entry) != 1:
+            raise Unsupported("datetime.__format__ not found")
+    else:
+        entry = [find_func(tree, entry_name)]
     todo, seen, order = [entry[0]], set(), []
     while todo:
         fn = todo.pop()
@@ -663,6 +666,74 @@ def _formatter_shape(tree):
     return conv_first, ok
 
 
+
+def _build_loop_shape(tree):
+    """the loop of `_compile_format` that builds `format_string` / `formatters` - in `_compile_format` itself or in the
+    one helper it hands `spec` and the table to - with parameters and locals renamed canonically (SPEC, TABLE, v0, v1, ...
+    in order of first assignment), one normalised source line per statement"""
+    fn = find_func(tree, "_compile_format")
+    host, spec_name, table_name = None, None, None
+
+    def has_loop(f):
+        return any(isinstance(n, ast.For) and "finditer" in ast.unparse(n.iter) for n in ast.walk(f))
+    if has_loop(fn):
+        host, spec_name, table_name = fn, fn.args.args[0].arg, "rep"
+    else:
+        funcs = {n.name: n for n in tree.body if isinstance(n, ast.FunctionDef)}
+        for n in ast.walk(fn):
+            if isinstance(n, ast.Call) and isinstance(n.func, ast.Name) and n.func.id in funcs and has_loop(funcs[n.func.id]) \
+                    and len(n.args) == 2 and not n.keywords and [ast.unparse(a) for a in n.args] == [fn.args.args[0].arg, "rep"]:
+                host = funcs[n.func.id]
+                if len(host.args.args) != 2:
+                    raise Unsupported("helper signature")
+                spec_name, table_name = host.args.args[0].arg, host.args.args[1].arg
+        if host is None:
+            raise Unsupported("the token loop was not found")
+    # the statements from the first initialisation of the loop's accumulators to the statement after the loop
+    body = list(host.body)
+    idx = [i for i, st in enumerate(body) if isinstance(st, ast.For) and "finditer" in ast.unparse(st.iter)]
+    if len(idx) != 1:
+        raise Unsupported("expected exactly one token loop")
+    loop = body[idx[0]]
+    stores = []
+    for n in ast.walk(loop):
+        if isinstance(n, ast.Name) and isinstance(n.ctx, ast.Store) and n.id not in stores:
+            stores.append(n.id)
+    used = {n.id for n in ast.walk(loop) if isinstance(n, ast.Name)}
+    pre = [st for st in body[:idx[0]] if isinstance(st, ast.Assign) and len(st.targets) == 1
+           and isinstance(st.targets[0], ast.Name) and st.targets[0].id in used
+           and st.targets[0].id not in (spec_name, table_name)]
+    post = body[idx[0] + 1: idx[0] + 2]
+    stmts = pre + [loop] + [st for st in post if isinstance(st, ast.AugAssign)]
+    names = {spec_name: "SPEC", table_name: "TABLE"}
+
+    class Ren(ast.NodeTransformer):
+        def visit_Name(self, n):
+            if n.id in names:
+                return ast.copy_location(ast.Name(id=names[n.id], ctx=n.ctx), n)
+            return n
+    order = []
+    for st in stmts:
+        for n in ast.walk(st):
+            if isinstance(n, ast.Name) and isinstance(n.ctx, ast.Store) and n.id not in names and n.id not in order:
+                order.append(n.id)
+    # order of first STORE in source order (ast.walk is breadth-first: sort by position)
+    pos = {}
+    for st in stmts:
+        for n in ast.walk(st):
+            if isinstance(n, ast.Name) and isinstance(n.ctx, ast.Store) and n.id not in names:
+                pos.setdefault(n.id, (n.lineno, n.col_offset))
+                pos[n.id] = min(pos[n.id], (n.lineno, n.col_offset))
+    for i, nm in enumerate(sorted(pos, key=lambda k: pos[k])):
+        names[nm] = "v%d" % i
+    import copy
+    lines = []
+    for st in stmts:
+        st2 = ast.fix_missing_locations(Ren().visit(copy.deepcopy(st)))
+        lines += [l.rstrip() for l in ast.unparse(st2).splitlines()]
+    return lines
+
+
 def _generate_shape():
     errors = []
     body = "import LoguruModel.Datetime.Base\nset_option linter.unusedVariables false\nnamespace Datetime.Gen\n\n"
@@ -683,6 +754,14 @@ def _generate_shape():
         body += "/-- constructs in the functions reachable from `datetime.__format__` through which a call could\n"
         body += "leave state behind for the next one (besides the memoiser above) -/\n"
         body += "def formatStateWrites : List String := [%s]\n\n" % ", ".join(lean_str(w) for w in writes)
+        writes2, _ = _state_writes(tree, "aware_now")
+        body += "/-- the same for the functions reachable from `aware_now` (the time of the record): nothing is remembered from one\n"
+        body += "record to the next (a zone looked up once would go stale at the next DST switch) -/\n"
+        body += "def awareNowStateWrites : List String := [%s]\n\n" % ", ".join(lean_str(w) for w in writes2)
+        loop = _build_loop_shape(tree)
+        body += "/-- the loop of `_compile_format` building `format_string`/`formatters` (hand model: `Datetime.build` over\n"
+        body += "`Datetime.scan`), locals renamed canonically -/\n"
+        body += "def buildLoopShape : List String := [\n  %s]\n\n" % ",\n  ".join(lean_str(l) for l in loop)
         conv_first, args_ok = _formatter_shape(tree)
         body += "/-- `_loguru_datetime_formatter`: UTC conversion before the fields are read; `format_string % tuple(f(t, dt) …)` -/\n"
         body += "def utcConversionFirst : Bool := %s\n" % ("true" if conv_first else "false")
